@@ -1,6 +1,7 @@
 package checks
 
 import (
+	"sort"
 	"errors"
 	"fmt"
 	"strconv"
@@ -160,6 +161,7 @@ func c11Group(s *sqlEnv, tx *sql.SQLTx, haveIdx bool, indexes []string, what str
 		fmt.Sprintf("a >= %d AND c < %d", k, r.Intn(4)), fmt.Sprintf("a = %d OR b = 'y'", k), fmt.Sprintf("a IN (%d, %d)", k, (k+2)%5),
 		"b LIKE 'x.*'", fmt.Sprintf("NOT (a < %d)", k), fmt.Sprintf("a = %d AND c = %d", k, r.Intn(4)),
 		fmt.Sprintf("a >= %d AND a <= %d", k%3, k%3+2), fmt.Sprintf("a > %d AND a < %d", k%2, k%2+4),
+		fmt.Sprintf("%d < a", k), fmt.Sprintf("%d >= a", k), fmt.Sprintf("%d <= a AND c IS NOT NULL", k%3), fmt.Sprintf("%d > id", 2+k*3),
 	}
 	p := preds[r.Intn(len(preds))]
 	base := "SELECT id, a, b, c FROM t"
@@ -224,6 +226,61 @@ func c11Group(s *sqlEnv, tx *sql.SQLTx, haveIdx bool, indexes []string, what str
 					r.Violation("order-by", "", "%s: WHERE %s ORDER BY %s %s is not sorted: %v", what, p, ordCol, dir, ordered)
 				}
 				prev = a
+			}
+		}
+		// paging: ORDER BY the primary key is a total order, so LIMIT n OFFSET m must be exactly rows m..m+n of
+		// the full ordered result, whichever index scans the table (a sort step is needed unless it is the primary one)
+		byID, okp := run(base + " WHERE " + p + " ORDER BY id " + dir)
+		if okp {
+			if fmt.Sprint(sortedCopy(byID)) != fmt.Sprint(sortedCopy(ref)) {
+				r.Violation("plan-dependent", "", "%s: WHERE %s ORDER BY id %s returns %v, without ORDER BY %v", what, p, dir, byID, ref)
+			}
+			n, m := 1+r.Intn(4), r.Intn(4)
+			want := []string{}
+			if m < len(byID) {
+				want = byID[m:min(len(byID), m+n)]
+			}
+			plans := []string{""}
+			for _, ix := range indexes {
+				plans = append(plans, " USE INDEX ON ("+ix+")")
+			}
+			for _, plan := range plans {
+				q := fmt.Sprintf("%s%s WHERE %s ORDER BY id %s LIMIT %d", base, plan, p, dir, n)
+				if m > 0 || r.Bool() {
+					q += fmt.Sprintf(" OFFSET %d", m)
+				} else {
+					want = byID[:min(len(byID), n)]
+				}
+				page, okq := run(q)
+				if okq && fmt.Sprint(page) != fmt.Sprint(want) {
+					r.Violation("paging", "", "%s: %q returns %v; rows %d..%d of the same query without LIMIT are %v", what, q, page, m, m+n, want)
+				}
+			}
+		}
+		// DISTINCT under ORDER BY and LIMIT: the first n distinct values
+		if ok0 {
+			n := 1 + r.Intn(4)
+			dcol, dpos := "a", 1
+			if r.Bool() {
+				dcol, dpos = "c", 3 // no index delivers this order: a sort step precedes DISTINCT
+			}
+			seen := map[string]bool{}
+			var vals []string
+			for _, row := range all {
+				v := strings.Split(row, "|")[dpos]
+				if !seen[v] {
+					seen[v] = true
+					vals = append(vals, v)
+				}
+			}
+			sort.Slice(vals, func(x, y int) bool { return c11Less(vals[x], vals[y], dir == "DESC") })
+			for _, plan := range []string{"", " USE INDEX ON (a)"} {
+				q := fmt.Sprintf("SELECT DISTINCT %s FROM t%s ORDER BY %s %s LIMIT %d", dcol, plan, dcol, dir, n)
+				got, okd := run(q)
+				if okd && fmt.Sprint(got) != fmt.Sprint(vals[:min(len(vals), n)]) {
+					r.Violation("distinct-limit", "", "%s: %q returns %v; the distinct values of %s in that order are %v", what, q, got, dcol, vals)
+					break
+				}
 			}
 		}
 		// joins: the result equals the nested-loop join computed here from the two tables
